@@ -14,7 +14,7 @@ Definition client (r : realm) (sid : N) : Prop := find_session (r_clients r) sid
 Record realm_wf (r : realm) : Prop := mkRealmWf {
   rw_meta_id : s_id (r_meta r) = meta_id;
   rw_no_meta : find_session (r_clients r) meta_id = None;
-  rw_ids : forall s, In s (r_clients r) -> s_id s <= max_idN;
+  rw_ids : forall s, In s (r_clients r) -> 0 < s_id s <= max_idN;
   rw_broker : broker_wf (r_broker r);
   rw_dealer : dealer_wf (lookup r) (r_dealer r);
   (* per-session tables name attached sessions only *)
@@ -478,10 +478,10 @@ Proof.
 Qed.
 
 Definition op_ok (o : op) : Prop :=
-  match o with OJoin sid _ _ => sid <= max_idN | _ => True end.
+  match o with OJoin sid _ _ => 0 < sid <= max_idN | _ => True end.
 
 Lemma join_wf : forall r sid l h k,
-    realm_wf r -> ids_below k r -> sid <= max_idN ->
+    realm_wf r -> ids_below k r -> 0 < sid <= max_idN ->
     realm_wf (fst (join r sid l h)) /\ ids_below k (fst (join r sid l h)).
 Proof.
   intros r sid l h k W I Hsid. unfold join.
